@@ -471,7 +471,7 @@ Qed.
 Lemma show_func_rows F E strip fn start name tm b :
   show_func F E strip (fn, start, name) tm = Some b ->
   let sub := block_lines (E fn start) start tm in
-  b_rows b = map (fun p => mk_row (build_display F (total_time tm) tm) (fst p) (snd p))
+  b_rows b = map (fun p => mk_row F (build_display F (total_time tm) tm) (fst p) (snd p))
                  (combine (zrange start (length sub)) sub).
 Proof.
   unfold show_func. destruct (strip && (total_hits tm =? 0)); [discriminate|].
@@ -486,8 +486,7 @@ Theorem row_i_is_line_start_plus_i F E strip fn start name tm b :
   length (b_rows b) = length sub
   /\ forall i r, nth_error (b_rows b) i = Some r ->
        r_lineno r = start + Z.of_nat i
-       /\ (exists line, nth_error sub i = Some line
-                        /\ r_text r = rstrip_char cr (rstrip_char nl line))
+       /\ (exists line, nth_error sub i = Some line /\ r_text r = shown_text F line)
        /\ r_cells r = display_entry F (total_time tm) tm (start + Z.of_nat i).
 Proof.
   intros H sub. rewrite (show_func_rows _ _ _ _ _ _ _ _ H). fold sub. split.
